@@ -465,6 +465,7 @@ pub fn worker(ctx: &WorkerCtx) -> WorkerResult {
     let res = RefCell::new(WorkerResult::default());
     let failed = RefCell::new(false);
     let found: RefCell<Option<(FaultPoint, String)>> = RefCell::new(None);
+    let hung = RefCell::new(false);
     let tier = ctx.tier;
     let mut runner = TestRunner::new(Config {
         cases: ctx.share(total).max(1) as u32,
@@ -474,6 +475,10 @@ pub fn worker(ctx: &WorkerCtx) -> WorkerResult {
         ..Config::default()
     });
     let outcome = runner.run(&case_strategy(&workload_params()), |case| {
+        if *hung.borrow() {
+            // every re-run of a hanging case costs the full quiet period: do not shrink hangs
+            return Ok(());
+        }
         let counting = !*failed.borrow();
         let ch = hash_json(&case);
         // fault-free run: count and classify the calls
@@ -553,6 +558,7 @@ pub fn worker(ctx: &WorkerCtx) -> WorkerResult {
                     }
                     PointOutcome::Hung(m) => {
                         *failed.borrow_mut() = true;
+                        *hung.borrow_mut() = true;
                         let what = format!("a call did not return after the injected failure (it neither reported an error nor took effect): {m}");
                         *found.borrow_mut() = Some((p, what.clone()));
                         return Err(TestCaseError::fail(what));
@@ -567,12 +573,17 @@ pub fn worker(ctx: &WorkerCtx) -> WorkerResult {
         Ok(()) => {}
         Err(TestError::Fail(_, _)) => {
             if let Some((p, e)) = found.into_inner() {
-                let p = minimise(p);
+                let is_hang = *hung.borrow();
+                let p = if is_hang { p } else { minimise(p) };
                 // refresh the message for the minimised point
-                let e = match guarded_point(&p) {
-                    PointOutcome::Violation(v) => v.what,
-                    PointOutcome::Hung(m) => format!("a call did not return after the injected failure: {m}"),
-                    PointOutcome::Ok(_) => e,
+                let e = if is_hang {
+                    e
+                } else {
+                    match guarded_point(&p) {
+                        PointOutcome::Violation(v) => v.what,
+                        PointOutcome::Hung(m) => format!("a call did not return after the injected failure: {m}"),
+                        PointOutcome::Ok(_) => e,
+                    }
                 };
                 let path = write_replay("C08", ctx.seed, ctx.worker, 0, &replay_body(&p, &e));
                 r.violations.push(ViolationRec { replay: path, message: e });
@@ -631,6 +642,95 @@ pub fn replay(v: &Value) -> Result<(), String> {
             PointOutcome::Ok(_) => {}
             PointOutcome::Violation(v) => return Err(v.what),
             PointOutcome::Hung(m) => return Err(format!("a call did not return after the injected failure: {m}")),
+        }
+    }
+    Ok(())
+}
+
+/// C09 part (iv): a sample of single-fault runs judged only for termination (hangs, panics on
+/// database threads); what the calls return is C08's business.
+pub fn worker_hang_only(ctx: &WorkerCtx, res: &RefCell<WorkerResult>) {
+    if !res.borrow().violations.is_empty() {
+        return;
+    }
+    let workloads = match ctx.tier {
+        Tier::Quick => 16u64,
+        Tier::Thorough => 400,
+    };
+    let per = match ctx.tier {
+        Tier::Quick => 60usize,
+        Tier::Thorough => 400,
+    };
+    let found: RefCell<Option<(FaultPoint, String)>> = RefCell::new(None);
+    let mut runner = TestRunner::new(Config {
+        cases: ctx.share(workloads).max(1) as u32,
+        rng_seed: RngSeed::Fixed(ctx.derived_seed(94)),
+        failure_persistence: None,
+        max_shrink_iters: 0,
+        ..Config::default()
+    });
+    let _ = runner.run(&case_strategy(&workload_params()), |case| {
+        if found.borrow().is_some() {
+            return Ok(());
+        }
+        let ch = hash_json(&case);
+        let base = FaultPoint { case: case.clone(), pos: None, sticky: false };
+        let info = match guarded_point(&base) {
+            PointOutcome::Ok(i) => i,
+            _ => return Ok(()),
+        };
+        let n = info.kinds.len();
+        if n == 0 {
+            return Ok(());
+        }
+        let step = (n / per).max(1);
+        let mut pos = (mix(ch, 1) % step as u64) as usize;
+        while pos < n {
+            // prefer write-side calls: they drive the sticky error state
+            let sticky = mix(ch, pos as u64) & 1 == 1;
+            let p = FaultPoint { case: case.clone(), pos: Some(pos as u64), sticky };
+            let bg0 = crate::guard::bg_panics();
+            let out = guarded_point(&p);
+            let mut r = res.borrow_mut();
+            r.evaluations += 1;
+            match out {
+                PointOutcome::Hung(m) => {
+                    *found.borrow_mut() = Some((p, format!("a call did not return after a single injected I/O failure: {m}")));
+                    return Ok(());
+                }
+                PointOutcome::Violation(v) if v.what.contains("panicked") => {
+                    *found.borrow_mut() = Some((p, v.what));
+                    return Ok(());
+                }
+                _ => {
+                    if crate::guard::bg_panics() > bg0 {
+                        *found.borrow_mut() = Some((p, "a database thread panicked after an injected I/O failure".into()));
+                        return Ok(());
+                    }
+                    r.bump("fault_runs_checked_for_termination");
+                    r.nontrivial_hashes.push(mix(ch, 0x900 + pos as u64));
+                }
+            }
+            pos += step;
+        }
+        Ok(())
+    });
+    if let Some((p, e)) = found.into_inner() {
+        let mut body = replay_body(&p, &e);
+        body["property"] = json!("C09");
+        body["engine"] = json!("faultpoint-termination");
+        let path = write_replay("C09", ctx.seed, ctx.worker, 94, &body);
+        res.borrow_mut().violations.push(ViolationRec { replay: path, message: e });
+    }
+}
+
+pub fn replay_termination(v: &Value) -> Result<(), String> {
+    let p: FaultPoint = serde_json::from_value(v["point"].clone()).map_err(|e| e.to_string())?;
+    for _ in 0..3 {
+        match guarded_point(&p) {
+            PointOutcome::Hung(m) => return Err(format!("a call did not return after the injected failure: {m}")),
+            PointOutcome::Violation(v) if v.what.contains("panicked") => return Err(v.what),
+            _ => {}
         }
     }
     Ok(())
